@@ -34,6 +34,10 @@ const (
 	SpecDir SpecKind = iota
 	SpecFile
 	SpecDelete
+	// the same two entry kinds reported as "modified" instead of "added": the
+	// statement does not distinguish them
+	SpecDirMod
+	SpecFileMod
 )
 
 type SpecElem struct {
@@ -85,7 +89,7 @@ func StreamSpec(seq []SpecElem) int {
 			return i
 		}
 		last, have = p, true
-		if e.Kind == SpecDir {
+		if e.Kind == SpecDir || e.Kind == SpecDirMod {
 			dirs[p] = true
 		}
 	}
